@@ -45,3 +45,17 @@ impl<'a> ReMatcher<'a> {
     #[verifier::external_body]
     pub fn clear_captured_groups_beyond(&self, pos: usize) { unimplemented!() }
 }
+
+// capture-state snapshot / restore through the RefCell: opaque here (unit `state` has the contracts)
+#[verifier::external_body]
+pub struct CaptureState { _p: core::marker::PhantomData<u8> }
+impl CaptureState {
+    #[verifier::external_body]
+    pub fn clone(&self) -> (r: CaptureState) { unimplemented!() }
+}
+impl<'a> ReMatcher<'a> {
+    #[verifier::external_body]
+    pub fn capture_state(&self) -> (r: CaptureState) { unimplemented!() }
+    #[verifier::external_body]
+    pub fn reset_state(&self, capture_state: CaptureState) { unimplemented!() }
+}
